@@ -22,12 +22,12 @@ use serde_json::{json, Value};
 use std::collections::{BTreeMap, BTreeSet};
 
 /// registers that may hold a heap pointer
-pub const PP: [&str; 5] = ["RAX", "RBX", "R12", "RDI", "RSI"];
+const PP: [&str; 5] = ["RAX", "RBX", "R12", "RDI", "RSI"];
 /// data registers: never assigned from a pointer register
-pub const DP: [&str; 2] = ["R10", "R11"];
+const DP: [&str; 2] = ["R10", "R11"];
 
 /// The extern table: (name, number of register parameters, has return register).
-pub const EXT: [(&str, usize, bool); 11] = [
+const EXT: [(&str, usize, bool); 11] = [
     ("malloc", 1, true), ("calloc", 2, true), ("strdup", 1, true), ("free", 1, false), ("fclose", 1, true), ("puts", 1, true),
     ("strlen", 1, true), ("memcmp", 3, true), ("putchar", 1, true), ("getpid", 0, true), ("exit", 1, false),
 ];
@@ -194,9 +194,10 @@ impl<'a> FnGen<'a> {
     }
     /// parameter registers of a call are loaded from kept pointers (most of the time)
     fn call_prep(&mut self, params: usize, defs: &mut Vec<Def>) {
-        for p in PARAM_REGS[..params.min(2)].iter() {
+        for (i, p) in PARAM_REGS[..params.min(2)].iter().enumerate() {
             if self.r.chance(7, 8) {
-                let k = self.known();
+                // of two parameters the first one is more often some OTHER pointer
+                let k = if params >= 2 && i == 0 && self.r.chance(2, 5) { self.keeper() } else { self.known() };
                 self.fetch(k, defs, Some(p));
             }
         }
@@ -206,7 +207,7 @@ impl<'a> FnGen<'a> {
     }
     fn pick_extern(&mut self) -> usize {
         let weight = |n: &str| match n {
-            "malloc" => 18, "calloc" => 4, "strdup" => 4, "free" => 34, "fclose" => 7, "puts" => 12, "strlen" => 5, "memcmp" => 5, "putchar" => 3, "getpid" => 3, _ => 2,
+            "malloc" => 18, "calloc" => 4, "strdup" => 4, "free" => 34, "fclose" => 7, "puts" => 12, "strlen" => 5, "memcmp" => 9, "putchar" => 3, "getpid" => 3, _ => 2,
         };
         let total: u64 = self.externs.iter().map(|e| weight(&e.name)).sum();
         let mut x = self.r.below(total);
@@ -254,6 +255,11 @@ impl<'a> FnGen<'a> {
             }
             if release {
                 kind = if self.s == 0 && self.callee.is_some() && self.r.chance(1, 3) { 5 } else { 4 };
+            }
+            // behind the release: hand the (dangling) pointer to the callee every now and then
+            let follow_up = matches!(self.plan, Some((j, _)) if j + 1 == b) && self.s == 0 && self.callee.is_some() && !last && self.r.chance(1, 3);
+            if follow_up {
+                kind = 5;
             }
             let mut jmps: Vec<Jmp> = Vec::new();
             match kind {
@@ -379,14 +385,11 @@ fn gen_scenarios(out: &mut Out) {
 }
 
 pub fn gen(out: &mut Out, sub: &str) {
-    if sub == "probe" {
-        return crate::props::x06_probe::probe(out);
-    }
     if sub == "mc" {
         return gen_scenarios(out);
     }
     let mut rng = Rng::new(out.seed ^ 0x0A06);
-    let n = out.size(1600, 24_000);
+    let n = out.size(4000, 40_000);
     let seeds: Vec<Rng> = (0..n).map(|_| rng.fork()).collect();
     let evs = crate::par::map(seeds, 4, |mut r| {
         let project = gen_project(&mut r, (6, 4, 4));
